@@ -374,3 +374,117 @@ Proof.
   - exact (passive_shelf_bound sp I Hadm b Hb f l v Hl Hv).
   - exact (passive_weight_each_bound sp I Hadm b Hb f l v Hl Hv).
 Qed.
+
+(* ------------------------------------------------------------------ end to end, with one outer variable *)
+Lemma existsb_eqb_In z l : existsb (Z.eqb z) l = true <-> In z l.
+Proof.
+  rewrite existsb_exists. split.
+  - intros (y & Hy & E). apply Z.eqb_eq in E. now subst.
+  - intros H. exists z. split; [exact H|apply Z.eqb_refl].
+Qed.
+Lemma hash_free_single l x : nohash l -> hash_free [(l, x)].
+Proof. intros H s. unfold sassoc. cbn [assoc]. now rewrite (nohash_neq' l s H). Qed.
+
+Definition in_dom (sp : aspec) (c : col) (x : Z) : bool := match c with KRoom => is_room sp x | _ => is_shelf_id sp x end.
+Lemma in_dom_In sp c x : c <> KWeight -> (in_dom sp c x = true <-> In x (dom_of sp c)).
+Proof.
+  intros Hc. destruct c; try (now contradiction Hc); cbn [in_dom dom_of].
+  - unfold is_room. apply existsb_eqb_In.
+  - apply is_shelf_id_In.
+Qed.
+Lemma dom_in_universe sp c x : c <> KWeight -> In x (dom_of sp c) -> In x (universe sp).
+Proof. intros Hc. destruct c; try (now contradiction Hc); cbn [dom_of]; [apply in_universe_room|apply in_universe_shelf]. Qed.
+
+(* exists over the universe, guarded by membership in the domain = exists over the domain *)
+Lemma existsb_guard sp c (P : Z -> bool) :
+  c <> KWeight -> existsb (fun x => P x && in_dom sp c x) (universe sp) = existsb P (dom_of sp c).
+Proof.
+  intros Hc. apply eq_true_iff_eq. rewrite !existsb_exists. split.
+  - intros (x & _ & H). apply andb_true_iff in H as [HP Hd]. exists x. split; [now apply in_dom_In|exact HP].
+  - intros (x & Hx & HP). exists x. split; [now apply dom_in_universe with c|]. rewrite HP. now apply in_dom_In.
+Qed.
+Lemma existsb_ext {A} (f g : A -> bool) l : (forall x, f x = g x) -> existsb f l = existsb g l.
+Proof. intros H. induction l as [|a r IH]; cbn; [reflexivity|]. now rewrite H, IH. Qed.
+Lemma existsb_map {A B} (f : A -> B) (p : B -> bool) l : existsb p (map f l) = existsb (fun x => p (f x)) l.
+Proof. induction l as [|a r IH]; cbn; [reflexivity|]. now rewrite IH. Qed.
+Lemma existsb_guard' sp c (P : Z -> bool) :
+  c <> KWeight -> existsb (fun x => in_dom sp c x && P x) (universe sp) = existsb P (dom_of sp c).
+Proof. intros Hc. rewrite <- (existsb_guard sp c P Hc). apply existsb_ext. intros x. apply andb_comm. Qed.
+
+Lemma negb_forallb {A} (f : A -> bool) l : negb (forallb f l) = existsb (fun x => negb (f x)) l.
+Proof. induction l as [|a r IH]; cbn; [reflexivity|]. rewrite negb_andb, IH. reflexivity. Qed.
+Lemma bindings_one sp l c : bindings sp [(l, c)] = map (fun v => [(l, v)]) (dom_of sp c).
+Proof. cbn [bindings]. induction (dom_of sp c) as [|x r IH]; [reflexivity|]. cbn in *. now rewrite IH. Qed.
+
+Lemma bound_generic sp I g t l side :
+  a_agg sp = g -> g_label g = Some l -> nohash l -> side <> KWeight -> a_owhere sp = None ->
+  (match a_cmp sp with CPhrase _ _ | CBetween _ _ => True | _ => False end) ->
+  (* the three layouts: label given by a whenever clause (non-passive / passive form), or passive subject without whenever clause *)
+  ((passive (g_form g) = false /\ a_whenever sp = [(l, side)]) \/
+   (passive (g_form g) = true /\ side = KRoom /\ (a_whenever sp = [(l, KRoom)] \/ a_whenever sp = []))) ->
+  compile_aggr 1 g = Some t -> (forall x, agg_eval sp I [(l, x)] t = Some (agg_of sp I [(l, x)] g)) ->
+  forall r, compile sp = Some r -> rule_violated sp I r = negb (reading sp I).
+Proof.
+  intros Ha Hlab Hl Hside How Hcmp Hlay Ht Hev r Hr.
+  unfold compile in Hr. destruct (compile_cmp sp) as [lits|] eqn:Ec; [|discriminate]. rewrite How in Hr.
+  unfold compile_cmp in Ec. rewrite Ha, Ht in Ec.
+  (* the comparison literals under a binding of l *)
+  assert (Hlits : forall x rest, forallb outer_only rest = true ->
+            lits_true sp I [(l, x)] [] (lits ++ rest) =
+            negb (Bool.eqb (cmp_holds sp I [(l, x)]) (a_required sp)) && lits_true sp I [(l, x)] [] rest).
+  { intros x rest Hrest. unfold cmp_holds. rewrite Ha. destruct (a_cmp sp) as [ph k|lo hi| | | ] eqn:Eq; try contradiction.
+    - destruct (cmp_phrase_number sp I [(l, x)] t _ ph k (a_required sp) lits rest (Hev x) Hrest Ec) as (kd & Hn & Hq). now rewrite Hq, Hn.
+    - exact (cmp_between_numbers sp I [(l, x)] t _ lo hi (a_required sp) lits rest (Hev x) Hrest Ec). }
+  assert (Ho : forallb is_ocmp lits = true).
+  { destruct (a_cmp sp) as [ph k|lo hi| | | ]; try contradiction.
+    - destruct (parse_simple ph (OAgg t) (ONum k)); [|discriminate]. now apply convert_cmp_ocmp in Ec.
+    - destruct (parse_between (OAgg t) (ONum lo) (ONum hi)); [|discriminate]. now apply convert_cmp_ocmp in Ec. }
+  assert (Hpl : passive_labels sp = if passive (g_form g) && negb (has_label l (a_whenever sp)) then [(l, KRoom)] else []).
+  { unfold passive_labels, aggs. rewrite Ha. destruct (a_cmp sp); try contradiction; cbn [aggs_of_cmp fold_left]; rewrite Hlab; cbn [has_label existsb]; rewrite andb_true_r; reflexivity. }
+  assert (Hread : negb (reading sp I) = existsb (fun v => negb (Bool.eqb (cmp_holds sp I [(l, v)]) (a_required sp))) (dom_of sp side)).
+  { unfold reading, outer_labels. rewrite Hpl.
+    assert (E : ((if passive (g_form g) && negb (has_label l (a_whenever sp)) then [(l, KRoom)] else []) ++ a_whenever sp)%list = [(l, side)]).
+    { destruct Hlay as [[Hp Hw]|(Hp & -> & [Hw|Hw])]; rewrite Hp, Hw; cbn; rewrite ?String.eqb_refl; reflexivity. }
+    rewrite E, bindings_one, negb_forallb, existsb_map. apply existsb_ext. intros v. unfold owhere_ok. now rewrite How. }
+  rewrite Hread. unfold rule_violated.
+  destruct Hlay as [[Hp Hw]|(Hp & -> & [Hw|Hw])]; rewrite Hpl, Hp, Hw in Hr; cbn [has_label existsb fst String.eqb andb negb map app] in Hr;
+    rewrite ?String.eqb_refl in Hr; cbn [orb negb andb map app] in Hr; injection Hr as <-.
+  - (* lits ++ [outer] *)
+    assert (G : global_vars (lits ++ [outer_atom (l, side)])%list = [l]).
+    { unfold global_vars. rewrite fold_left_app, (ocmp_no_globals lits [] Ho). destruct side; reflexivity. }
+    rewrite G, all_bindings_one, existsb_map. rewrite <- (existsb_guard sp side _ Hside). apply existsb_ext. intros x.
+    rewrite Hlits by (destruct side; reflexivity). f_equal.
+    destruct side; try (now contradiction Hside); cbn [outer_atom snd fst lits_true sassoc assoc]; rewrite String.eqb_refl, andb_true_r; reflexivity.
+  - assert (G : global_vars (lits ++ [outer_atom (l, KRoom)])%list = [l]).
+    { unfold global_vars. rewrite fold_left_app, (ocmp_no_globals lits [] Ho). reflexivity. }
+    rewrite G, all_bindings_one, existsb_map. rewrite <- (existsb_guard sp KRoom _ Hside). apply existsb_ext. intros x.
+    rewrite Hlits by reflexivity. f_equal. cbn [outer_atom snd fst lits_true sassoc assoc]. rewrite String.eqb_refl, andb_true_r. reflexivity.
+  - assert (G : global_vars (outer_atom (l, KRoom) :: lits ++ [])%list = [l]).
+    { unfold global_vars. cbn [fold_left outer_atom snd fst]. rewrite fold_left_app, (ocmp_no_globals lits _ Ho). reflexivity. }
+    rewrite G, all_bindings_one, existsb_map. rewrite <- (existsb_guard' sp KRoom _ Hside). apply existsb_ext. intros x.
+    cbn [outer_atom snd fst lits_true sassoc assoc]. rewrite String.eqb_refl. rewrite Hlits by reflexivity. cbn [lits_true]. now rewrite andb_true_r.
+Qed.
+
+Theorem bound_aggregate_sentence_correct sp I f l form side :
+  adm sp I -> nohash l ->
+  In (form, side) [(FParamShelf, KRoom); (FParamRoom, KShelf); (FActive, KShelf); (FPassiveShelf, KRoom); (FPassiveWeightEach, KRoom)] ->
+  a_agg sp = {| g_fn := f; g_form := form; g_side := Some side; g_label := Some l; g_dlabel := None; g_filter := None |} ->
+  a_owhere sp = None -> (match a_cmp sp with CPhrase _ _ | CBetween _ _ => True | _ => False end) ->
+  ((passive form = false /\ a_whenever sp = [(l, side)]) \/ (passive form = true /\ (a_whenever sp = [(l, KRoom)] \/ a_whenever sp = []))) ->
+  forall r, compile sp = Some r -> rule_violated sp I r = negb (reading sp I).
+Proof.
+  intros Hadm Hl Hin Ha How Hcmp Hlay r Hr.
+  set (g := {| g_fn := f; g_form := form; g_side := Some side; g_label := Some l; g_dlabel := None; g_filter := None |}) in *.
+  assert (Hside : side <> KWeight).
+  { destruct Hin as [E|[E|[E|[E|[E|[]]]]]]; injection E as <- <-; discriminate. }
+  assert (Hval : forall x, exists t, compile_aggr 1 g = Some t /\ agg_eval sp I [(l, x)] t = Some (agg_of sp I [(l, x)] g)).
+  { intros x. apply (bound_aggregate_term_value sp I [(l, x)] f l x form side Hadm (hash_free_single l x Hl) Hl); [|exact Hin].
+    unfold sassoc. cbn [assoc]. now rewrite String.eqb_refl. }
+  destruct (Hval 0%Z) as (t & Ht & _).
+  assert (Hev : forall x, agg_eval sp I [(l, x)] t = Some (agg_of sp I [(l, x)] g)).
+  { intros x. destruct (Hval x) as (t' & Ht' & E). rewrite Ht in Ht'. injection Ht' as <-. exact E. }
+  apply (bound_generic sp I g t l side Ha eq_refl Hl Hside How Hcmp); [|exact Ht|exact Hev|exact Hr].
+  cbn [g g_form]. destruct Hlay as [[Hp Hw]|[Hp Hw]]; [left; now split|right].
+  split; [exact Hp|]. split; [|exact Hw].
+  destruct Hin as [E|[E|[E|[E|[E|[]]]]]]; injection E as <- <-; try reflexivity; discriminate Hp.
+Qed.
